@@ -42,8 +42,8 @@ namespace occa {
     memoryPoolRing.addRef(memPool);
   }
 
-  void modeMemoryPool_t::removeMemoryPoolRef(memoryPool *memPool) {
-    memoryPoolRing.removeRef(memPool);
+  bool modeMemoryPool_t::removeMemoryPoolRef(memoryPool *memPool) {
+    return memoryPoolRing.removeRef(memPool);
   }
 
   void modeMemoryPool_t::addModeMemoryRef(modeMemory_t *mem) {
@@ -71,7 +71,7 @@ namespace occa {
     reserved += newBytes;
   }
 
-  void modeMemoryPool_t::removeModeMemoryRef(modeMemory_t *mem) {
+  bool modeMemoryPool_t::removeModeMemoryRef(modeMemory_t *mem) {
     modeMemoryRing.removeRef(mem);
 
     /*Remove this mem from the reservation list*/
@@ -97,6 +97,9 @@ namespace occa {
       if (lo == hi) break;
     }
     reserved -= freedBytes;
+
+    // A pool lives as long as its memoryPool wrappers, not its reservations
+    return needsFree();
   }
 
   bool modeMemoryPool_t::needsFree() const {
